@@ -1,4 +1,5 @@
 import PeptVerif.Lemmas.FormulaRT
+import PeptVerif.Generated.ElementsC15
 /-!
 # C15 — chemical formulas: write → parse round trip, additivity, mass   (chem part; glycans: `Props/C15Glycan.lean`)
 
@@ -184,6 +185,35 @@ example (mono hill : Bool) :
     chemMassStr exTable mono (writeChem exTable.elems exComp [] hill) [] = chemMassComp exTable mono exComp := by
   apply mass_write _ _ _ _ _ exComp_dom
   cases mono <;> exact known_of_all (by decide +kernel)
+
+/-! ### the bundled table -/
+
+/-- the element table of the repo under test (generated from `peptacular.constants`; `Gen.massTable` of
+`Model/ModDbGen.lean` is this same term) -/
+def repoTable : MassTable :=
+  ⟨Gen.ElementsC15.elems, Gen.ElementsC15.electron, Gen.ElementsC15.proton, Gen.ElementsC15.neutron⟩
+
+/-- **Every one of the 476 keys of the bundled table is in the domain** of the theorems above: it is a `PlainKey`
+(118 element symbols) or an `IsoKey` (isotope-prefixed symbols, `D`, `T`). -/
+theorem table_keys_in_domain : ∀ e ∈ repoTable.elems, PlainKey e.sym ∨ IsoKey e.sym := by
+  have h : repoTable.elems.all (fun e => plainKeyB e.sym || isoKeyB e.sym) = true := by decide +kernel
+  intro e he
+  have := List.all_eq_true.1 h e he
+  simpa [PlainKey, IsoKey] using this
+
+example : (⟨k13C, ⟨1300335483507, 11⟩, none, some 2⟩ : Elem) ∈ repoTable.elems := by decide +kernel
+
+/-- **Mass round trip on the bundled table**: for every dict over the table's keys and the particles, monoisotopic or
+average, plain or Hill order, `chem_mass(write_chem_formula(c)) = chem_mass(c)` (exactly, in ℚ). -/
+theorem mass_write_table (mono hill : Bool) (c : Comp) (h : DomComp c)
+    (hk : ∀ kv ∈ c, kv.1 ∈ repoTable.elems.map (·.sym) ∨ kv.1 = [101] ∨ kv.1 = [112] ∨ kv.1 = [110]) :
+    chemMassStr repoTable mono (writeChem repoTable.elems c [] hill) [] = chemMassComp repoTable mono c := by
+  have hall : repoTable.elems.all (fun e => isIsoKey e.sym || e.avg.isSome) = true := by decide +kernel
+  exact chemMassStr_write _ hill h.wf (fun kv hkv => known_of_table mono hall (hk kv hkv))
+
+example (mono hill : Bool) :
+    chemMassStr repoTable mono (writeChem repoTable.elems exComp [] hill) [] = chemMassComp repoTable mono exComp :=
+  mass_write_table mono hill exComp exComp_dom (by decide +kernel)
 
 /-! ### separated form (sep = ' ' or '|') -/
 
